@@ -11,6 +11,8 @@
 #include "SimTKmath.h"
 #include "verif.h"
 
+#include <malloc.h>
+
 using namespace SimTK;
 typedef std::vector<double> DV;
 
@@ -126,7 +128,21 @@ static DV startPoint(const Prob& p, int s) {
     return x;
 }
 struct Outcome { bool returned = false; std::string failure; double f = 0; DV x; Log log; int usedAlg = -1; };
-static Outcome runOptimizer(const Prob& p, const Config& c, int seed = 7) {
+// glibc fills every fresh heap block with a fixed byte (M_PERTURB): what a library reads from uninitialised heap memory is then the
+// same in every run (the check stays deterministic) and can be varied on purpose: 0xFF -> zeros, 0xA5 -> 1.3e127, 0x100 -> NaN.
+static const int HEAP_DEFAULT = 0xA5;
+// The same for the stack: 512 KB below the caller's frame are filled with a byte before every run, so uninitialised locals of the
+// library (e.g. the isave/dsave/lsave arrays of LBFGSBOptimizer::optimize) read a known pattern instead of leftovers of earlier calls.
+static void __attribute__((noinline)) dirtyStack(int byte) { volatile char buf[1 << 19]; memset((void*)buf, byte, sizeof buf); asm volatile("" ::: "memory"); }
+static Outcome __attribute__((noinline)) runOptimizerImpl(const Prob& p, const Config& c, int seed);
+static Outcome __attribute__((noinline)) runOptimizer(const Prob& p, const Config& c, int seed = 7, int heapFill = HEAP_DEFAULT) {
+    mallopt(M_PERTURB, heapFill);
+    struct Restore { ~Restore() { mallopt(M_PERTURB, HEAP_DEFAULT); } } restore;
+    dirtyStack(heapFill == 0xFF ? 0x00 : heapFill == 0x100 ? 0xFF : 0x5A);
+    return runOptimizerImpl(p, c, seed);
+}
+static Outcome __attribute__((noinline)) runOptimizerImpl(const Prob& p, const Config& c, int seed) {
+    struct Restore { ~Restore() { mallopt(M_PERTURB, HEAP_DEFAULT); } } restore;
     Outcome o;
     DV x0 = startPoint(p, c.start); Sys sys(p, x0);
     Vector x(p.n); for (int i = 0; i < p.n; ++i) x[i] = x0[i];
@@ -169,7 +185,7 @@ static void makeProblems(bool thorough, int variant, std::vector<Prob>& P) {
     for (int n : {2, 4}) { Prob p; p.family = "rosen"; p.n = n; p.eig = DV(n, 1.0); p.c = DV(n, 1.0); p.desc = "family=rosen n=" + std::to_string(n); P.push_back(p); }
     // box-bounded quadratics: every active-set pattern is produced by placing the unconstrained minimiser below / inside / above the box [-1,1]
     for (int n = 1; n <= 3; ++n) { int64_t pats = 1; for (int i = 0; i < n; ++i) pats *= 3;
-        for (int64_t k = 0; k < pats; ++k) for (int rot = 0; rot < (n >= 2 ? 2 : 1); ++rot) for (int sp = 0; sp < (thorough ? 2 : 1); ++sp) {
+        for (int64_t k = 0; k < pats; ++k) for (int rot = 0; rot < (n >= 2 ? 2 : 1); ++rot) for (int sp = 0; sp < 2; ++sp) {
             Prob p; p.family = "bquad"; p.n = n; p.rot = rot; p.eig.resize(n); p.c.resize(n); p.hasBounds = true; p.lo.assign(n, -1.0); p.hi.assign(n, 1.0);
             int64_t t = k; std::string pat; for (int i = 0; i < n; ++i) { int d = (int)(t % 3); t /= 3; p.c[i] = d == 0 ? -2.0 : d == 1 ? 0.25 : 1.75; pat += "lfu"[d]; p.eig[i] = sp == 0 ? (i == 0 ? 1.0 : 10.0) : (i == 0 ? 1e3 : 1.0); }
             p.buildQ(); p.desc = "family=bquad n=" + std::to_string(n) + " pattern=" + pat + " rot=" + std::to_string(rot) + " spectrum=" + std::to_string(sp); P.push_back(p);
@@ -199,6 +215,7 @@ int main(int argc, char** argv) {
     verif::Run run("C39", argc, argv);
     run.setDeadline(600, 2700);
     const bool thorough = run.thorough();
+    mallopt(M_PERTURB, HEAP_DEFAULT);
     if (run.replaying() && !run.replayPath.empty() && run.replayPath[0] != '/') { char buf[4096]; if (getcwd(buf, sizeof buf)) run.replayPath = std::string(buf) + "/" + run.replayPath; }
     { std::string d = run.buildDir + "/tmp/C39-cwd"; std::string cmd = "mkdir -p " + d; if (system(cmd.c_str()) == 0) { if (chdir(d.c_str()) != 0) {} } }   // c-cmaes may write errcmaes.err into the cwd
     run.rule = "a case = (problem, algorithm, gradient mode {analytic, numerical central, numerical forward}, convergence tolerance {default 1e-3, 1e-6}, start point {0, +-0.5 alternating, (3,-2,..)}); problems: convex quadratics 1/2 (x-c)'Q(x-c) with n in {1,2,5,20}, "
@@ -284,6 +301,9 @@ int main(int argc, char** argv) {
         // CMA-ES stops silently at the iteration limit (3000 here): such runs are counted, their distance to the minimiser is not judged
         bool cmaesHitLimit = false;
         if (o.usedAlg == CMAES) { const int lambda = 4 + (int)std::floor(3 * std::log((double)p.n)); if (o.log.nObj >= (int64_t)3000 * lambda) { cmaesHitLimit = true; run.count("cmaes:stopped-at-iteration-limit(minimiser-not-judged)"); } }
+        // The CMA-ES documentation warns that the resampling used to obey limits "may prevent the algorithm from functioning properly":
+        // with limits its distance to the minimiser is not judged (bounds, truthfulness and reproducibility still are).
+        if (o.usedAlg == CMAES && p.hasBounds) { cmaesHitLimit = true; run.count("cmaes:with-limits(minimiser-not-judged,documented-warning)"); }
         // unique minimiser
         if ((p.family != "rosen" || p.n == 2) && !cmaesHitLimit) {
             DV xs; bool have = p.family == "rosen" ? (xs = DV(p.n, 1.0), true) : kktReference(p, xs);
@@ -296,7 +316,22 @@ int main(int argc, char** argv) {
                 const double tolv = c.tol ? 1e-6 : 1e-3;
                 const double K = o.usedAlg == LBFGS ? 1e-3 : o.usedAlg == LBFGSB ? 0.2 : o.usedAlg == InteriorPoint ? 100 : 1500;
                 const double gapBound = K * tolv + (c.grad ? 1e-6 : 0.0);
-                if (p.family != "rosen") {
+                // LBFGSB's own stopping test (lbfgsb.cpp projgr_, modified by the library authors): max_i |pg_i|*max(1,|x_i|)/max(0.1,|f|) <= tol,
+                // where pg_i is the gradient component CLIPPED to the distance to the bound.  If a run fails the gap clause although that
+                // test holds at the returned point while the plain projected gradient |P(x-g)-x| is still above tol, the cause is that test.
+                bool lbfgsbScaledTest = false;
+                if (o.usedAlg == LBFGSB && p.family != "rosen" && std::fabs(gap) > gapBound) {
+                    DV g(p.n); p.grad(o.x.data(), g.data()); double scaled = 0, plain = 0; const double fscale = 1 / std::max(0.1, std::fabs(o.f));
+                    for (int i = 0; i < p.n; ++i) { double gi = g[i];
+                        if (p.hasBounds) { if (gi < 0) gi = std::max(o.x[i] - p.hi[i], gi); else gi = std::min(o.x[i] - p.lo[i], gi); }
+                        plain = std::max(plain, std::fabs(gi)); scaled = std::max(scaled, std::fabs(gi) * fscale * std::max(1.0, std::fabs(o.x[i]))); }
+                    if (scaled <= tolv && plain > tolv) lbfgsbScaledTest = true;
+                }
+                if (lbfgsbScaledTest) {
+                    run.count("lbfgsb:stopped-by-scaled-projected-gradient-test:evaluations=" + std::to_string(std::min<int64_t>(o.log.nObj, 3)));
+                    run.expect(false, "LBFGSB/scaled-projected-gradient-test", [&] { return "LBFGSB reports convergence at f=" + verif::fmtd(o.f) + " (minimum " + verif::fmtd(fs) + ") after " + std::to_string(o.log.nObj) +
+                        " objective evaluation(s): its stopping test divides the bound-clipped gradient by |f| | " + where; }, RP);
+                } else if (p.family != "rosen") {
                     run.residual("objective-gap-over-bound/" + cls, std::fabs(gap) / gapBound, 1.0, W, RP);   // recorded as a ratio because the bound differs per case
                     // strict convexity: 1/2 lambda_min |x-x*|^2 <= f-f* for feasible x; constraint slack of 1e-4 adds at most that much again
                     const double distBound = 1.01 * std::sqrt(2 * gapBound * (1 + std::fabs(fs)) / p.lambdaMin()) + (p.ne + p.ni > 0 ? 1e-3 : 0) + 1e-9;
@@ -318,6 +353,13 @@ int main(int argc, char** argv) {
         if (c.alg == BestAvailable) { Case c2 = cs; c2.cfg.alg = o.usedAlg; Outcome o4 = runOptimizer(p, c2.cfg);
             if (verbose) { printf("  explicit %s: %s f=%.17g x=", A.c_str(), o4.returned ? "returned" : ("threw: " + o4.failure).c_str(), o4.f); for (double v : o4.x) printf(" %.17g", v); printf("  (BestAvailable x="); for (double v : o.x) printf(" %.17g", v); printf(")\n"); }
             run.expect(o4.returned && o4.f == o.f && o4.x == o.x, "best-available/same-as-explicit", [&] { return "BestAvailable and explicit " + A + " give different results | " + where; }, RP); }
+        // the result must not depend on the contents of uninitialised heap memory (deterministic algorithms only; CMA-ES has its own clause)
+        if (o.usedAlg != CMAES && c.alg != BestAvailable) {
+            bool same = true; std::string how;
+            for (int fill : {0xFF, 0x100}) { Outcome o5 = runOptimizer(p, c, 7, fill);
+                if (!(o5.returned && o5.f == o.f && o5.x == o.x && o5.log.nObj == o.log.nObj)) { same = false; how = std::string(fill == 0xFF ? "zero" : "NaN") + "-filled heap and stack: " + (o5.returned ? "f=" + verif::fmtd(o5.f) + " after " + std::to_string(o5.log.nObj) + " evaluations" : "threw " + o5.failure.substr(0, 80)); break; } }
+            run.expect(same, "uninitialised-memory/" + A, [&] { return "the result depends on the contents of uninitialised heap/stack memory: default fill gives f=" + verif::fmtd(o.f) + " after " + std::to_string(o.log.nObj) + " evaluations, " + how + " | " + where; }, RP);
+        }
     };
 
     if (run.replaying()) {
